@@ -333,35 +333,45 @@ pub fn analyse(case: &LoopCase, result: &Result<(), String>, d: &Driver, sel: u3
             if on && (!out.is_empty() || pending.is_some()) {
               facts.on_with_output_or_repeat += 1;
             }
-            let next_send: Option<Vec<Event>> = if i + 1 < n && !calls[i + 1].failed {
-              match &calls[i + 1].kind {
-                CallKind::Send { evs } => Some(evs.clone()),
-                _ => None,
-              }
-            } else {
-              None
-            };
-            let next_failed = i + 1 < n && calls[i + 1].failed;
-            if let Some(evs) = &next_send {
-              if sel & P12 != 0 {
-                if tablet_mode {
-                  return fail(12, "write-in-tablet-mode", format!("call {}: send [{}] at a tablet-mode event while tablet mode is already on", i + 1, evs_text(evs)));
+            // the release batch: the run of writes directly after the tablet event (the property
+            // says "released immediately", not "in one write")
+            let mut j = i + 1;
+            let mut next_failed = false;
+            while j < n {
+              match &calls[j].kind {
+                CallKind::Send { evs } => {
+                  if calls[j].failed {
+                    next_failed = true;
+                    break;
+                  }
+                  if sel & P12 != 0 {
+                    if tablet_mode {
+                      return fail(12, "write-in-tablet-mode", format!("call {}: send [{}] at a tablet-mode event while tablet mode is already on", j, evs_text(evs)));
+                    }
+                    if evs.iter().any(|e| matches!(e, Event::Pressed(_))) {
+                      return fail(12, "press-at-tablet-switch", format!("call {}: the batch written at the tablet-mode event contains a press: [{}]", j, evs_text(evs)));
+                    }
+                  }
+                  fold_events(&mut out, evs);
+                  facts.sends += 1;
+                  j += 1;
                 }
-                if evs.iter().any(|e| matches!(e, Event::Pressed(_))) {
-                  return fail(12, "press-at-tablet-switch", format!("call {}: the batch written at the tablet-mode event contains a press: [{}]", i + 1, evs_text(evs)));
+                _ => {
+                  if calls[j].failed {
+                    next_failed = true;
+                  }
+                  break;
                 }
               }
-              fold_events(&mut out, evs);
-              facts.sends += 1;
             }
-            if sel & P12 != 0 && !out.is_empty() && !next_failed && !(i + 1 >= n && result.is_err()) {
+            if sel & P12 != 0 && !out.is_empty() && !next_failed && !(j >= n && result.is_err()) {
               return fail(12, "keys-held-after-tablet-switch", format!("call {}: after tablet mode turned {} the output still holds {:?}", i, if on { "on" } else { "off" }, out.names()));
             }
             tablet_mode = on;
             pending = None;
             last_ignored = false;
             twin = Mapper::for_layout(&case.layout);
-            i += if next_send.is_some() { 2 } else { 1 };
+            i = j;
             continue;
           }
           _ => {
